@@ -113,7 +113,11 @@ impl<'a> Sess<'a> {
         let mut nfn: Vec<usize> = s.frequent_items(ErrorType::NoFalseNegatives).iter().map(|r| self.a.id_of(*r.item())).collect();
         nfp.sort();
         nfn.sort();
-        let v = json!({"op":"FChk","id":id,"slots":slots(s, &self.a),"q":q,"nfp":nfp,"nfn":nfn,"maxerr":s.maximum_error()});
+        let mut v = json!({"op":"FChk","id":id,"slots":slots(s, &self.a),"q":q,"nfp":nfp,"nfn":nfn,"maxerr":s.maximum_error()});
+        if s.lg_cur_map_size() <= 6 {
+            v["img"] = json!(s.serialize());
+            v["ib"] = json!(s.verif_slots().iter().filter_map(|(k, _, _)| k.map(|x| x.to_le_bytes().to_vec())).collect::<Vec<_>>());
+        }
         self.out.ev(v);
     }
     pub fn rt(&mut self, id: usize) -> usize {
